@@ -18,7 +18,7 @@ try:
     # demos written by the seeding agents may hard-code their own worktree in sys.path: rewrite to ours
     src = open(os.path.join(cand, "demo.py")).read()
     import re
-    src2 = re.sub(r"/tmp/seed-C\d\d", wt, src)
+    src2 = re.sub(r"/tmp/seed\d*-C\d\d", wt, src)
     tmpdemo = os.path.join(wt, "_demo.py"); open(tmpdemo, "w").write(src2)
     def demo():
         p = subprocess.run(["/venv/bin/python", tmpdemo], cwd=wt, env=env, capture_output=True, text=True, timeout=1800)
